@@ -21,10 +21,13 @@ def exc_name(e):
     return "EXC " + type(e).__name__
 
 
+PREFIX = ""
+
+
 def enum_value(text):
     try:
         ffi = cffi.FFI()
-        ffi.cdef("enum e { E = %s };" % text)
+        ffi.cdef(PREFIX + "enum e { E = %s };" % text)
         return ffi._parser._int_constants["E"]
     except Exception as e:
         return exc_name(e)
@@ -36,7 +39,7 @@ def inline_reads(text, v, literal, neg_literal):
     if -2 ** 63 <= v < 2 ** 64:
         try:
             ffi = cffi.FFI()
-            ffi.cdef("enum e { E = %s };" % text)
+            ffi.cdef(PREFIX + "enum e { E = %s };" % text)
             reads["inline.lib.E"] = ffi.dlopen(None).E
             if -2 ** 63 <= v < 2 ** 63 or v >= 0:
                 reads["inline.relements"] = ffi.typeof("enum e").relements["E"]
@@ -45,7 +48,7 @@ def inline_reads(text, v, literal, neg_literal):
     if 0 <= v < 2 ** 31:
         try:
             ffi = cffi.FFI()
-            ffi.cdef("typedef char T[%s];" % text)
+            ffi.cdef(PREFIX + "typedef char T[%s];" % text)
             reads["inline.length"] = ffi.typeof("T").length
             reads["inline.sizeof"] = ffi.sizeof("T")
         except Exception as e:
@@ -53,7 +56,7 @@ def inline_reads(text, v, literal, neg_literal):
     if 1 <= v <= 32:
         try:
             ffi = cffi.FFI()
-            ffi.cdef("struct s { unsigned int b : %s; };" % text)
+            ffi.cdef(PREFIX + "struct s { unsigned int b : %s; };" % text)
             reads["inline.bitsize"] = ffi.typeof("struct s").fields[0][1].bitsize
         except Exception as e:
             reads["inline.bitfield"] = exc_name(e)
@@ -92,9 +95,9 @@ def ool_batch(cases, results, tag, api):
     ffi = cffi.FFI()
     modname = "_c09_%s" % tag
     try:
-        ffi.cdef("\n".join(lines))
+        ffi.cdef(PREFIX + "\n" + "\n".join(lines))
         if api:
-            ffi.set_source(modname, "\n".join(l for l in lines if not l.startswith("#")) + "\n" +
+            ffi.set_source(modname, PREFIX + "\n" + "\n".join(l for l in lines if not l.startswith("#")) + "\n" +
                            "\n".join(l for l in lines if l.startswith("#")))
             ffi.compile(tmpdir=work)
             sys.path.insert(0, work)
@@ -129,6 +132,8 @@ def ool_batch(cases, results, tag, api):
 
 
 def main(payload):
+    global PREFIX
+    PREFIX = payload.get("prefix", "")
     cases = payload["cases"]
     results = []
     for c in cases:
